@@ -7,6 +7,8 @@ use std::io::Read;
 mod cmd_vector;
 mod cmd_table;
 mod cmd_oracle;
+mod cmd_sample;
+mod scalars;
 
 pub fn f(b: u64) -> f64 {
     f64::from_bits(b)
@@ -51,7 +53,8 @@ fn main() {
         "vector" => cmd_vector::run(&input),
         "table" => cmd_table::run(&input),
         "oracle" => cmd_oracle::run(&input),
+        "sample" => cmd_sample::run(&input),
         _ => panic!("unknown command"),
     };
-    println!("{}", serde_json::to_string(&out).unwrap());
+    println!("\n@@JSON@@{}", serde_json::to_string(&out).unwrap());
 }
